@@ -14,7 +14,7 @@ open Gribi Gribi.Gen
 
 /-- the model's view of an error; `st` renders a receive error (which of them are gRPC statuses
 does not matter to the two counting helpers) -/
-def absErr (st : Status → Option Chk.St) : Option ErrView → Chk.CErr
+def absErr (st : Option GStatus → Option Chk.St) : Option ErrView → Chk.CErr
   | none => .nil
   | some ⟨none⟩ => .other
   | some ⟨some ce⟩ => .clientErr ce.Send.length (ce.Recv.map st)
@@ -27,7 +27,7 @@ theorem gen_clientError (err : Option ErrView) :
   cases h : err.bind (fun v => v.AsClientErr) <;> simp
 
 /-- **`HasNSendErrors`** = the model's, for every error and count -/
-theorem gen_hasNSendErrors (st : Status → Option Chk.St) (err : Option ErrView) (count : Nat) :
+theorem gen_hasNSendErrors (st : Option GStatus → Option Chk.St) (err : Option ErrView) (count : Nat) :
     Gen.hasNSendErrors err count = Chk.hasNSendErrors (absErr st err) count := by
   unfold Gen.hasNSendErrors
   rcases err with _ | ⟨_ | ce⟩
@@ -36,7 +36,7 @@ theorem gen_hasNSendErrors (st : Status → Option Chk.St) (err : Option ErrView
   · by_cases h : ce.Send.length = count <;> simp [gen_clientError, absErr, Chk.hasNSendErrors, h]
 
 /-- **`HasNRecvErrors`** = the model's -/
-theorem gen_hasNRecvErrors (st : Status → Option Chk.St) (err : Option ErrView) (count : Nat) :
+theorem gen_hasNRecvErrors (st : Option GStatus → Option Chk.St) (err : Option ErrView) (count : Nat) :
     Gen.hasNRecvErrors err count = Chk.hasNRecvErrors (absErr st err) count := by
   unfold Gen.hasNRecvErrors
   rcases err with _ | ⟨_ | ce⟩
